@@ -1,6 +1,667 @@
-//! C17 — stub (to be written; see /verif/harness/AUTHORING.md and DESIGN.md §3 C17)
-use vengine::Property;
+//! C17 — count and tf-idf vectorisers equal a naive count of the tokenised corpus.
+//!
+//! Every case is a small corpus plus one tokenisation setting. The oracle (`reference.rs`) recomputes the
+//! whole pipeline from the definition: transformed string -> tokens -> n-gram windows -> document frequency
+//! -> admitted set -> counts -> idf, and compares vocabulary (as a set), the word <-> column mapping, every
+//! entry of the count matrix (training and unseen documents) and every tf-idf entry.
+
+pub mod case;
+pub mod reference;
+
+pub use case::{case_from_bytes, Case, Df, Idf, Tok};
+
+use linfa_preprocessing::tf_idf_vectorization::{FittedTfIdfVectorizer, TfIdfMethod, TfIdfVectorizer};
+use linfa_preprocessing::{CountVectorizer, CountVectorizerParams, Tokenizer};
+use ndarray::Array1;
+use reference::Reference;
+use serde::{Deserialize, Serialize};
+use std::collections::{BTreeMap, BTreeSet};
+use vengine::{enum_sub, prop_sub, Obs, Property, Tier};
+
+/// Relative tolerance of a tf-idf entry: 64 eps times the magnitudes entering `count * (ln(..) + 1)` (DESIGN §1.5).
+pub const IDF_REL: f64 = 64.0 * f64::EPSILON;
+/// Absolute floor of the tf-idf tolerance.
+pub const IDF_TINY: f64 = 1e-300;
+
+// ------------------------------------------------------------------------------------------------
+// building linfa objects from a case
+
+fn count_params(c: &Case, n_train: usize) -> CountVectorizerParams {
+    let mut p = CountVectorizer::params()
+        .convert_to_lowercase(c.lowercase)
+        .normalize(c.normalize)
+        .n_gram_range(c.ngram.0, c.ngram.1)
+        .document_frequency(reference::df_value(&c.df.0, n_train), reference::df_value(&c.df.1, n_train))
+        .max_features(c.max_features);
+    if let Some(s) = &c.stopwords {
+        p = p.stopwords(&s[..]);
+    }
+    match c.tok {
+        Tok::Default => p,
+        Tok::RegexNoSpace => p.tokenizer(Tokenizer::Regex(reference::RE_NOSPACE.to_string())),
+        Tok::RegexWord1 => p.tokenizer(Tokenizer::Regex(reference::RE_WORD1.to_string())),
+        Tok::FnWhitespace => p.tokenizer(Tokenizer::Function(reference::tok_whitespace)),
+        Tok::FnSplitSpace => p.tokenizer(Tokenizer::Function(reference::tok_split_space)),
+    }
+}
+
+/// `TfIdfVectorizer` has no builder for its idf method (only `Smooth` is reachable through builders), so the
+/// non-default methods are set through the type's serde form. Returns `None` if that route does not work.
+fn tfidf_with_method(m: &Idf) -> Option<TfIdfVectorizer> {
+    let name = match m {
+        Idf::Smooth => return Some(TfIdfVectorizer::default()),
+        Idf::NonSmooth => "NonSmooth",
+        Idf::Textbook => "Textbook",
+    };
+    let mut v = serde_json::to_value(TfIdfVectorizer::default()).ok()?;
+    *v.get_mut("method")? = serde_json::Value::String(name.to_string());
+    serde_json::from_value(v).ok()
+}
+
+fn tfidf_params(c: &Case, n_train: usize, base: TfIdfVectorizer) -> TfIdfVectorizer {
+    let mut p = base
+        .convert_to_lowercase(c.lowercase)
+        .normalize(c.normalize)
+        .n_gram_range(c.ngram.0, c.ngram.1)
+        .document_frequency(reference::df_value(&c.df.0, n_train), reference::df_value(&c.df.1, n_train))
+        .max_features(c.max_features);
+    if let Some(s) = &c.stopwords {
+        p = p.stopwords(&s[..]);
+    }
+    match c.tok {
+        Tok::Default => p,
+        Tok::RegexNoSpace => p.tokenizer(Tokenizer::Regex(reference::RE_NOSPACE.to_string())),
+        Tok::RegexWord1 => p.tokenizer(Tokenizer::Regex(reference::RE_WORD1.to_string())),
+        Tok::FnWhitespace => p.tokenizer(Tokenizer::Function(reference::tok_whitespace)),
+        Tok::FnSplitSpace => p.tokenizer(Tokenizer::Function(reference::tok_split_space)),
+    }
+}
+
+// ------------------------------------------------------------------------------------------------
+// oracle pieces
+
+/// Vocabulary learned by `fit`: exactly the admitted set; under a cap a top-`cap` subset by document frequency.
+/// Returns true when the vocabulary is well-formed enough to judge the matrices column by column.
+fn judge_learned_vocab(c: &Case, r: &Reference, obs: &mut Obs, pre: &str, vocab: &[String], nentries: usize) -> bool {
+    let set: BTreeSet<&String> = vocab.iter().collect();
+    let mut ok = obs.ensure(set.len() == vocab.len(), &format!("{pre}vocab:duplicate-entry"), || {
+        format!("vocabulary() lists an entry twice: {:?}", vocab)
+    });
+    obs.ensure(nentries == vocab.len(), &format!("{pre}vocab:nentries"), || {
+        format!("nentries() = {nentries} but vocabulary() has {} entries", vocab.len())
+    });
+    // nothing invented
+    for w in vocab {
+        match r.candidates.get(w) {
+            None => {
+                ok = false;
+                obs.fail(
+                    format!("{pre}vocab:not-an-ngram-of-the-corpus"),
+                    format!("entry {w:?} is not an n-gram ({:?}) of any training document", c.ngram),
+                );
+            }
+            Some(cand) => {
+                if r.stop.contains(w) {
+                    obs.fail(format!("{pre}vocab:stop-word-kept"), format!("stop word {w:?} is in the vocabulary"));
+                }
+                if cand.df < r.window.0 {
+                    obs.fail(
+                        format!("{pre}vocab:below-min-df"),
+                        format!("{w:?} has document frequency {} < floor(min_df*n) = {} (n = {})", cand.df, r.window.0, c.train.len()),
+                    );
+                }
+                if cand.df > r.window.1 {
+                    obs.fail(
+                        format!("{pre}vocab:above-max-df"),
+                        format!("{w:?} has document frequency {} > floor(max_df*n) = {} (n = {})", cand.df, r.window.1, c.train.len()),
+                    );
+                }
+            }
+        }
+    }
+    // nothing dropped
+    match c.max_features {
+        None => {
+            for (w, df) in &r.admitted {
+                if !set.contains(w) {
+                    obs.fail(
+                        format!("{pre}vocab:admitted-entry-missing"),
+                        format!(
+                            "{w:?} (document frequency {df}, window {:?}, not a stop word) is missing from the vocabulary {:?}",
+                            r.window, vocab
+                        ),
+                    );
+                    break;
+                }
+            }
+        }
+        Some(cap) => {
+            let want = cap.min(r.admitted.len());
+            obs.ensure(vocab.len() == want, &format!("{pre}vocab:cap-size"), || {
+                format!("max_features = {cap}, {} admitted entries, vocabulary has {} entries", r.admitted.len(), vocab.len())
+            });
+            let kept_min = vocab.iter().filter_map(|w| r.admitted.get(w)).min();
+            let dropped_max = r.admitted.iter().filter(|(w, _)| !set.contains(w)).map(|(_, df)| df).max();
+            if let (Some(k), Some(d)) = (kept_min, dropped_max) {
+                obs.ensure(k >= d, &format!("{pre}vocab:cap-not-most-frequent"), || {
+                    format!("max_features = {cap}: a kept entry has document frequency {k}, a dropped one {d}; vocabulary {:?}", vocab)
+                });
+            }
+        }
+    }
+    ok
+}
+
+fn judge_counts(
+    obs: &mut Obs,
+    sig_pre: &str,
+    which: &str,
+    vocab: &[String],
+    docs: &[BTreeMap<String, usize>],
+    m: &sprs::CsMat<usize>,
+) {
+    if !obs.ensure(m.rows() == docs.len() && m.cols() == vocab.len(), &format!("{sig_pre}count:shape"), || {
+        format!("{which}: count matrix is {}x{}, expected {}x{}", m.rows(), m.cols(), docs.len(), vocab.len())
+    }) {
+        return;
+    }
+    for (d, counts) in docs.iter().enumerate() {
+        for (j, w) in vocab.iter().enumerate() {
+            let want = counts.get(w).copied().unwrap_or(0);
+            let got = m.get(d, j).copied().unwrap_or(0);
+            if got != want {
+                let sig = if got < want { "count:occurrences-missed" } else { "count:occurrences-invented" };
+                obs.fail(
+                    format!("{sig_pre}{sig}"),
+                    format!("{which} document {d}, column {j} = {w:?}: matrix says {got}, the document contains it {want} times"),
+                );
+            }
+        }
+    }
+}
+
+fn judge_tfidf(
+    obs: &mut Obs,
+    which: &str,
+    method: &Idf,
+    vocab: &[String],
+    docs: &[BTreeMap<String, usize>],
+    m: &sprs::CsMat<f64>,
+) {
+    if !obs.ensure(m.rows() == docs.len() && m.cols() == vocab.len(), "tfidf:shape", || {
+        format!("{which}: tf-idf matrix is {}x{}, expected {}x{}", m.rows(), m.cols(), docs.len(), vocab.len())
+    }) {
+        return;
+    }
+    let n = docs.len();
+    for (j, w) in vocab.iter().enumerate() {
+        let df = docs.iter().filter(|d| d.get(w).copied().unwrap_or(0) > 0).count();
+        for (d, counts) in docs.iter().enumerate() {
+            let count = counts.get(w).copied().unwrap_or(0);
+            let got = m.get(d, j).copied().unwrap_or(0.0);
+            if count == 0 {
+                if got != 0.0 {
+                    obs.fail(
+                        "tfidf:nonzero-for-absent-entry",
+                        format!("{which} document {d}, column {j} = {w:?}: entry {got} although the document does not contain it"),
+                    );
+                }
+                continue;
+            }
+            // count > 0 => df >= 1: the documented NonSmooth division by zero cannot arise here
+            let (idf, lnmag) = reference::idf(method, n, df);
+            let want = count as f64 * idf;
+            let tol = IDF_REL * count as f64 * (lnmag + 1.0) + IDF_TINY;
+            if !(got == want || (got.is_finite() && (got - want).abs() <= tol)) {
+                obs.fail(
+                    "tfidf:wrong-entry",
+                    format!(
+                        "{which} document {d}, column {j} = {w:?}: entry {got}, expected count {count} x idf_{:?}(n = {n}, df = {df}) = {want}",
+                        method
+                    ),
+                );
+            }
+        }
+    }
+}
+
+fn arr(v: &[String]) -> Array1<String> {
+    Array1::from(v.to_vec())
+}
+
+fn classify(c: &Case, r: &Reference, obs: &mut Obs) {
+    obs.class(match c.tok {
+        Tok::Default => "tok_default_regex",
+        Tok::RegexNoSpace => "tok_regex_nospace",
+        Tok::RegexWord1 => "tok_regex_word1",
+        Tok::FnWhitespace => "tok_fn_whitespace",
+        Tok::FnSplitSpace => "tok_fn_split_space",
+    });
+    obs.class(match c.ngram.1 {
+        1 => "ngram_max_1",
+        2 => "ngram_max_2",
+        _ => "ngram_max_3",
+    });
+    obs.class_if(c.ngram.0 >= 2, "ngram_min_ge_2");
+    obs.class_if(c.ngram.0 < c.ngram.1, "ngram_range_wide");
+    obs.class_if(c.lowercase, "lowercase_on");
+    obs.class_if(!c.lowercase, "lowercase_off");
+    obs.class_if(c.normalize, "normalize_on");
+    obs.class_if(!c.normalize, "normalize_off");
+    obs.class(match c.method {
+        Idf::Smooth => "idf_smooth",
+        Idf::NonSmooth => "idf_nonsmooth",
+        Idf::Textbook => "idf_textbook",
+    });
+    obs.class_if(r.train.iter().any(|d| d.is_empty()), "doc_without_ngrams");
+    obs.class_if(c.train.iter().any(|d| d.is_empty()), "empty_document");
+    obs.class_if(r.train.iter().any(|d| d.values().any(|k| *k >= 2)), "repeated_ngram_in_document");
+    obs.class_if(
+        c.train.iter().any(|d| reference::transform_string(d, true, false) != *d) && c.normalize,
+        "nfkd_changes_text",
+    );
+    obs.class_if(c.train.iter().any(|d| d.to_lowercase() != *d) && c.lowercase, "lowercase_changes_text");
+    obs.class_if(c.unseen.is_empty(), "no_unseen_documents");
+    obs.class_if(!c.unseen.is_empty() && c.unseen.len() != c.train.len(), "unseen_corpus_other_size");
+    let unseen_oov = r.unseen.iter().any(|d| d.keys().any(|g| !r.candidates.contains_key(g)));
+    obs.class_if(unseen_oov, "unseen_has_oov_ngram");
+    if c.fixed_vocab.is_some() {
+        obs.class("fixed_vocabulary");
+        return;
+    }
+    // learned vocabulary: which filters bite
+    let n = c.train.len();
+    obs.class_if(r.candidates.is_empty(), "no_candidates");
+    if let Some(s) = &c.stopwords {
+        obs.class("stopwords_given");
+        let hit: Vec<&String> = s.iter().filter(|w| r.candidates.contains_key(*w)).collect();
+        obs.class_if(!hit.is_empty(), "stopword_removes_candidate");
+        obs.class_if(hit.iter().any(|w| w.contains(' ')), "stopword_is_multi_token_ngram");
+        obs.class_if(
+            hit.iter().any(|w| !w.contains(' ') && r.admitted.keys().any(|g| g.split(' ').any(|t| t == w.as_str()) && g.contains(' '))),
+            "stopword_token_survives_inside_ngram",
+        );
+    }
+    let default_window = r.window.0 == 0 && r.window.1 >= n;
+    obs.class_if(default_window, "df_window_open");
+    obs.class_if(r.candidates.values().any(|cd| cd.df < r.window.0), "df_min_removes_candidate");
+    obs.class_if(r.candidates.values().any(|cd| cd.df > r.window.1), "df_max_removes_candidate");
+    obs.class_if(r.candidates.values().any(|cd| cd.df == r.window.0 && r.window.0 > 0), "df_exactly_at_min");
+    obs.class_if(r.candidates.values().any(|cd| cd.df == r.window.1 && r.window.1 < n), "df_exactly_at_max");
+    // observational: floor() admits an entry whose exact relative frequency is below min_df
+    let lo = reference::df_value(&c.df.0, n) as f64;
+    obs.class_if(
+        n > 0 && r.admitted.values().any(|df| (*df as f64) / (n as f64) < lo),
+        "observed_floor_admits_relative_df_below_min",
+    );
+    let mut removed = r.candidates.len() - r.admitted.len();
+    if let Some(cap) = c.max_features {
+        obs.class("cap_given");
+        if cap < r.admitted.len() {
+            obs.class("cap_binding");
+            removed += r.admitted.len() - cap;
+            let mut dfs: Vec<usize> = r.admitted.values().copied().collect();
+            dfs.sort_unstable_by(|a, b| b.cmp(a));
+            if cap > 0 && dfs.get(cap - 1) == dfs.get(cap) {
+                obs.class("cap_tie_at_boundary");
+            }
+        }
+    }
+    obs.class_if(removed > 0, "filter_removes_candidate");
+    obs.class_if(removed == r.candidates.len() && removed > 0, "vocabulary_filtered_to_empty");
+    obs.nontrivial_if(c.ngram.1 >= 2 && removed > 0);
+}
+
+/// observational class: under a binding cap the kept set is a top set by document frequency (what the code and
+/// DESIGN use) but not by total term count (what the builder's doc comment says)
+fn observe_cap_order(c: &Case, r: &Reference, obs: &mut Obs, vocab: &[String]) {
+    if let Some(cap) = c.max_features {
+        if cap < r.admitted.len() {
+            let set: BTreeSet<&String> = vocab.iter().collect();
+            let total = |w: &String| r.candidates.get(w).map(|cd| cd.total).unwrap_or(0);
+            let kept_min = vocab.iter().map(total).min();
+            let dropped_max = r.admitted.keys().filter(|w| !set.contains(w)).map(total).max();
+            if let (Some(k), Some(d)) = (kept_min, dropped_max) {
+                obs.class_if(k < d, "observed_cap_order_differs_from_term_count_order");
+            }
+        }
+    }
+}
+
+// ------------------------------------------------------------------------------------------------
+// the check
+
+/// Judge one case (learned or fixed vocabulary, count and tf-idf vectoriser, training and unseen documents).
+pub fn check(c: &Case, obs: &mut Obs) {
+    if !case::valid(c) {
+        obs.skip("invalid_case_not_judged");
+        return;
+    }
+    let r = Reference::new(c);
+    classify(c, &r, obs);
+    let n_train = c.train.len();
+    let train = arr(&c.train);
+    let unseen = arr(&c.unseen);
+
+    // ---- count vectoriser
+    let params = count_params(c, n_train);
+    let fitted = match &c.fixed_vocab {
+        None => obs.call("count_fit", || params.fit(&train)),
+        Some(v) => obs.call("count_fit_vocabulary", || params.fit_vocabulary(&v[..])),
+    };
+    match fitted {
+        None => {}
+        Some(Err(e)) => obs.fail("count:fit-error-on-valid-settings", format!("fit returned Err({e})")),
+        Some(Ok(cv)) => {
+            let vocab: Vec<String> = cv.vocabulary().clone();
+            let judge = match &c.fixed_vocab {
+                None => {
+                    observe_cap_order(c, &r, obs, &vocab);
+                    judge_learned_vocab(c, &r, obs, "", &vocab, cv.nentries())
+                }
+                Some(v) => judge_fixed_vocab(obs, "", v, &vocab, cv.nentries()),
+            };
+            if judge {
+                if let Some(res) = obs.call("count_transform", || cv.transform(&train)) {
+                    match res {
+                        Ok(m) => judge_counts(obs, "", "training", &vocab, &r.train, &m),
+                        Err(e) => obs.fail("count:transform-error", format!("transform(training) returned Err({e})")),
+                    }
+                }
+                if let Some(res) = obs.call("count_transform", || cv.transform(&unseen)) {
+                    match res {
+                        Ok(m) => judge_counts(obs, "", "unseen", &vocab, &r.unseen, &m),
+                        Err(e) => obs.fail("count:transform-error", format!("transform(unseen) returned Err({e})")),
+                    }
+                }
+            }
+        }
+    }
+
+    // ---- tf-idf vectoriser (own fit, own column order)
+    let (base, method) = match tfidf_with_method(&c.method) {
+        Some(b) => (b, c.method.clone()),
+        None => {
+            obs.class("idf_method_not_constructible_fell_back_to_smooth");
+            (TfIdfVectorizer::default(), Idf::Smooth)
+        }
+    };
+    let tparams = tfidf_params(c, n_train, base);
+    let tfitted: Option<Result<FittedTfIdfVectorizer, _>> = match &c.fixed_vocab {
+        None => obs.call("tfidf_fit", || tparams.fit(&train)),
+        Some(v) => obs.call("tfidf_fit_vocabulary", || tparams.fit_vocabulary(&v[..])),
+    };
+    match tfitted {
+        None => {}
+        Some(Err(e)) => obs.fail("tfidf:fit-error-on-valid-settings", format!("fit returned Err({e})")),
+        Some(Ok(tv)) => {
+            let want_method = match method {
+                Idf::Smooth => TfIdfMethod::Smooth,
+                Idf::NonSmooth => TfIdfMethod::NonSmooth,
+                Idf::Textbook => TfIdfMethod::Textbook,
+            };
+            obs.ensure(*tv.method() == want_method, "tfidf:method-not-kept", || {
+                format!("fitted vectoriser reports method {:?}, configured {:?}", tv.method(), want_method)
+            });
+            let vocab: Vec<String> = tv.vocabulary().clone();
+            let judge = match &c.fixed_vocab {
+                None => judge_learned_vocab(c, &r, obs, "tfidf:", &vocab, tv.nentries()),
+                Some(v) => judge_fixed_vocab(obs, "tfidf:", v, &vocab, tv.nentries()),
+            };
+            if judge {
+                if let Some(res) = obs.call("tfidf_transform", || tv.transform(&train)) {
+                    match res {
+                        Ok(m) => judge_tfidf(obs, "training", &method, &vocab, &r.train, &m),
+                        Err(e) => obs.fail("tfidf:transform-error", format!("transform(training) returned Err({e})")),
+                    }
+                }
+                if let Some(res) = obs.call("tfidf_transform", || tv.transform(&unseen)) {
+                    match res {
+                        Ok(m) => judge_tfidf(obs, "unseen", &method, &vocab, &r.unseen, &m),
+                        Err(e) => obs.fail("tfidf:transform-error", format!("transform(unseen) returned Err({e})")),
+                    }
+                }
+            }
+        }
+    }
+}
+
+/// `fit_vocabulary(words)`: the vocabulary is the set of the given words (settings are documented to be ignored).
+fn judge_fixed_vocab(obs: &mut Obs, pre: &str, given: &[String], vocab: &[String], nentries: usize) -> bool {
+    let want: BTreeSet<&String> = given.iter().collect();
+    let got: BTreeSet<&String> = vocab.iter().collect();
+    let ok = obs.ensure(got.len() == vocab.len(), &format!("{pre}fixed:duplicate-entry"), || {
+        format!("vocabulary() lists an entry twice: {:?}", vocab)
+    });
+    obs.ensure(got == want, &format!("{pre}fixed:vocabulary-differs"), || {
+        format!("fit_vocabulary({:?}) produced vocabulary {:?}", given, vocab)
+    });
+    obs.ensure(nentries == vocab.len(), &format!("{pre}fixed:nentries"), || {
+        format!("nentries() = {nentries}, vocabulary() has {} entries", vocab.len())
+    });
+    obs.class_if(want.len() < given.len(), "fixed_vocabulary_with_duplicates");
+    obs.class_if(given.is_empty(), "fixed_vocabulary_empty");
+    ok
+}
+
+// ------------------------------------------------------------------------------------------------
+// idf formula on its own (all three methods are public through `TfIdfMethod::compute_idf`)
+
+#[derive(Debug, Clone, Serialize, Deserialize)]
+pub struct IdfCase {
+    pub method: Idf,
+    pub n: usize,
+    pub df: usize,
+}
+
+pub fn check_idf(c: &IdfCase, obs: &mut Obs) {
+    if c.n == 0 || (c.method == Idf::NonSmooth && c.df == 0) {
+        // n = 0: no documents, no entries; NonSmooth with df = 0: documented division by zero
+        obs.skip("idf_outside_documented_domain");
+        return;
+    }
+    obs.class(match c.method {
+        Idf::Smooth => "idf_smooth",
+        Idf::NonSmooth => "idf_nonsmooth",
+        Idf::Textbook => "idf_textbook",
+    });
+    obs.class_if(c.df == c.n, "df_equals_n");
+    obs.class_if(c.df == 0, "df_zero");
+    obs.nontrivial_if(c.df != c.n);
+    let m = match c.method {
+        Idf::Smooth => TfIdfMethod::Smooth,
+        Idf::NonSmooth => TfIdfMethod::NonSmooth,
+        Idf::Textbook => TfIdfMethod::Textbook,
+    };
+    if let Some(got) = obs.call("compute_idf", || m.compute_idf(c.n, c.df)) {
+        let (want, lnmag) = reference::idf(&c.method, c.n, c.df);
+        let tol = IDF_REL * (lnmag + 1.0) + IDF_TINY;
+        obs.ensure(got == want || (got.is_finite() && (got - want).abs() <= tol), "idf:formula", || {
+            format!("compute_idf({:?}, n = {}, df = {}) = {got}, documented formula gives {want}", c.method, c.n, c.df)
+        });
+    }
+}
+
+fn idf_cases(t: Tier) -> Vec<IdfCase> {
+    let max_n = t.pick(24, 80);
+    let mut v = vec![];
+    for method in [Idf::Smooth, Idf::NonSmooth, Idf::Textbook] {
+        for n in 1..=max_n {
+            for df in 0..=n {
+                v.push(IdfCase { method: method.clone(), n, df });
+            }
+        }
+    }
+    v
+}
+
+// ------------------------------------------------------------------------------------------------
+// enumerations
+
+fn word(k: usize) -> String {
+    format!("w{}", (b'a' + (k % 26) as u8) as char)
+}
+
+fn plain_case(train: Vec<String>) -> Case {
+    Case {
+        train,
+        unseen: vec![],
+        lowercase: true,
+        normalize: true,
+        tok: Tok::Default,
+        ngram: (1, 1),
+        stopwords: None,
+        df: (Df::Zero, Df::One),
+        max_features: None,
+        fixed_vocab: None,
+        method: Idf::Smooth,
+    }
+}
+
+/// For n documents, word k (1..=n) occurs in exactly the first k documents (and (d+1) times in document d), so every
+/// document frequency 1..=n is present; every valid (min, max) pair of the window values is tried.
+fn df_grid(t: Tier) -> Vec<Case> {
+    let mut out = vec![];
+    let max_n = t.pick(8, 12);
+    for n in 1..=max_n {
+        let docs: Vec<String> = (0..n)
+            .map(|d| {
+                let mut s = String::new();
+                for k in 1..=n {
+                    if d < k {
+                        for _ in 0..=(d % 3) {
+                            s.push_str(&word(k));
+                            s.push(' ');
+                        }
+                    }
+                }
+                s
+            })
+            .collect();
+        let mut vals = vec![Df::Zero, Df::Lit034, Df::Half, Df::Lit067, Df::One];
+        for k in 1..=n {
+            vals.push(Df::KOverN(k as u8));
+        }
+        for a in &vals {
+            for b in &vals {
+                if reference::df_value(a, n) > reference::df_value(b, n) {
+                    continue;
+                }
+                for (gi, ngram) in [(1usize, 1usize), (1, 2)].iter().enumerate() {
+                    let mut c = plain_case(docs.clone());
+                    c.df = (a.clone(), b.clone());
+                    c.ngram = *ngram;
+                    c.method = case::method_of((n + gi) as u8);
+                    c.unseen = vec![docs[0].clone(), "wa zz wb".to_string()];
+                    out.push(c);
+                }
+            }
+        }
+    }
+    out
+}
+
+/// Every n-gram range against documents of 0..=6 tokens (distinct / identical / alternating tokens), two tokenizers,
+/// with and without a stop word that is itself a bigram.
+fn ngram_grid(t: Tier) -> Vec<Case> {
+    let mut out = vec![];
+    let max_len = t.pick(6, 9);
+    for range in case::NGRAM_RANGES {
+        for len in 0..=max_len {
+            for pattern in 0..3 {
+                let toks: Vec<String> = (0..len)
+                    .map(|i| match pattern {
+                        0 => word(i),
+                        1 => word(0),
+                        _ => word(i % 2),
+                    })
+                    .collect();
+                let doc = toks.join(" ");
+                for tok in [Tok::Default, Tok::FnWhitespace] {
+                    for stop in [false, true] {
+                        let mut c = plain_case(vec![doc.clone(), "wa wb".to_string(), String::new()]);
+                        c.ngram = range;
+                        c.tok = tok.clone();
+                        c.unseen = vec![format!("{doc} wa"), "wb wa wb".to_string()];
+                        if stop {
+                            c.stopwords = Some(vec!["wa wb".to_string(), "wb".to_string()]);
+                        }
+                        c.method = case::method_of((len + pattern) as u8);
+                        out.push(c);
+                    }
+                }
+            }
+        }
+    }
+    out
+}
+
+/// Deterministic pseudo-random byte strings pushed through `case_from_bytes` (the libFuzzer entry): exercises the
+/// decoder's totality and adds raw (lossy UTF-8) documents outside the word alphabet.
+fn byte_cases(t: Tier) -> Vec<Case> {
+    const SNIPPETS: [&[u8]; 20] = [
+        b" ", b" ", b"a", b"b", b"A", b"B", b"ab", b"ba", b".", b", ", b"-", b"\n", b"x",
+        "\u{e9}".as_bytes(), "e\u{301}".as_bytes(), "\u{fb01}".as_bytes(), "\u{130}".as_bytes(), "\u{2121}".as_bytes(), b"\xff", b"_1",
+    ];
+    let mut out = vec![];
+    for i in 0..t.pick(4000u64, 40000u64) {
+        let mut rng = vengine::gen::SplitMix(0xC17_0000 + i);
+        let len = 60 + rng.below(240);
+        let mut bytes: Vec<u8> = Vec::with_capacity(len + 8);
+        // header: free bytes; body: snippets mixed with free bytes
+        for _ in 0..9 {
+            bytes.push(rng.next_u64() as u8);
+        }
+        if i % 2 == 0 {
+            bytes[0] |= 0x80; // raw documents
+        } else {
+            bytes[0] &= 0x7f;
+        }
+        while bytes.len() < len {
+            if rng.below(5) == 0 {
+                bytes.push(rng.next_u64() as u8);
+            } else {
+                bytes.extend_from_slice(SNIPPETS[rng.below(SNIPPETS.len())]);
+            }
+        }
+        if let Some(c) = case_from_bytes(&bytes) {
+            out.push(c);
+        }
+    }
+    out
+}
 
 pub fn property() -> Property {
-    Property { id: "C17", rule: "", assumptions: vec![], subs: vec![] }
+    Property {
+        id: "C17",
+        rule: "cases = (training documents, unseen documents, lower-casing, NFKD, tokenizer (default regex | 2 other regexes | 2 function pointers), \
+               n-gram range, stop words, relative df window, max_features, fixed vocabulary, idf method); documents are built from a 17-word \
+               alphabet (mixed case, precomposed/decomposed/compatibility forms, a symbol whose NFKD is upper-case letters, a one-letter word) with space/punctuation separators, stop words \
+               and fixed vocabularies are picked from the corpus' own n-grams plus out-of-vocabulary strings; plus enumerated grids over every \
+               document frequency x window pair and every n-gram range x document length. Non-trivial = n-gram max >= 2 together with a filter \
+               (stop words, df window or cap) that removes >= 1 candidate n-gram (idf grid: df != n); distinct = distinct canonical JSON of the case"
+            .into(),
+        assumptions: vec![
+            "trusted base of the reference: unicode-normalization (NFKD), regex (find_iter with the same expression), str::to_lowercase; order NFKD then lower-case as in the documented settings list".into(),
+            "an n-gram is its tokens joined by one space; occurrences are counted per window position".into(),
+            "df window: an entry is admitted iff floor(min_df*n) <= df <= floor(max_df*n), products in f32 (DESIGN C17: conversion documented by behaviour and the crate's tests); min_df, max_df in [0,1], min <= max (documented domain)".into(),
+            "stop words exclude whole vocabulary entries (documented: 'entries to be excluded'), not tokens before n-gram formation".into(),
+            "max_features: any subset of the admitted set of size min(cap, |admitted|) whose smallest document frequency >= largest dropped one is accepted (ties may be broken arbitrarily); 'most frequent' is read as document frequency (DESIGN C17)".into(),
+            "fit_vocabulary: the vocabulary is the set of the given words, all filters ignored (documented)".into(),
+            format!("tf-idf entry = count * idf(n, df) over the transformed corpus, natural logarithm; tolerance {IDF_REL:e} * count * (|ln part| + 1) + {IDF_TINY:e}; entries with count 0 must be exactly 0 (so NonSmooth with df = 0 never enters)"),
+            "idf methods other than Smooth are configured through the serde form of TfIdfVectorizer (no builder exists); if that fails the case is judged with Smooth and labelled".into(),
+            "n-gram range 1 <= min <= max <= 3; 1..=8 (thorough 12) training documents of 0..=8 (12) tokens; fit_files/transform_files are not exercised".into(),
+        ],
+        subs: vec![
+            prop_sub("learned_vocabulary", 30000, 300000, |t: Tier| case::case_strategy(t.pick(8, 12), t.pick(8, 12), false), check)
+                .chunks(16)
+                .require(&["cap_binding", "stopword_removes_candidate", "df_exactly_at_min", "df_exactly_at_max", "unseen_has_oov_ngram"]),
+            prop_sub("fixed_vocabulary", 8000, 80000, |t: Tier| case::case_strategy(t.pick(8, 12), t.pick(8, 12), true), check)
+                .require(&["fixed_vocabulary"]),
+            enum_sub("df_window_grid", df_grid, check),
+            enum_sub("ngram_window_grid", ngram_grid, check),
+            enum_sub("byte_decoded_cases", byte_cases, check),
+            enum_sub("idf_formula_grid", idf_cases, check_idf),
+        ],
+    }
 }
